@@ -18,7 +18,8 @@ PROPERTY = "C14"
 CLAIM = dict(
     text="Explicit-state model checking of the real Cov / StateVector objects: from every start frame x orbit x matrix, "
     "breadth-first search over histories of the four frame-changing operations (cov.frame = t, cov.copy(frame=t), "
-    "orb.frame = t, orb.copy(frame=t)) with 12 / 10 targets each, deduplicated on the complete canonical state "
+    "orb.frame = t, orb.copy(frame=t)) with 12 / 10 targets each, plus in-place edits of the matrix and re-attachment of the "
+    "covariance to the same state expressed in another frame in dedicated sub-searches, deduplicated on the complete canonical state "
     "including the hidden private state copy and _orb_frame. In every reached state the matrix is compared with the "
     "history-independent oracle R C0 R^T (R from the frame code applied to basis states, resp. textbook QSW/TNW triads "
     "of the inertial r, v), and symmetry, positive semi-definiteness, position-block spectrum, frame labels and purity "
@@ -39,12 +40,17 @@ BOUNDS = {
     "quick": "EOP zero, epoch d0: 7 start frames x 3 (orbit, matrix) pairings, histories of length <= 3 for one pairing "
     "per start frame (= fixpoint on a tree where the property holds), length <= 2 for the other two; + 48 collision "
     "chains (one process each, both orders, histories of length <= 2 per root): 4 epochs for each start frame, 3 orbits "
-    "/ 3 matrices for each start frame, 7 start frames for each pairing; + depth-1 check of Cov built with a frame name",
+    "/ 3 matrices for each start frame, 7 start frames for each pairing; + depth-1 check of Cov built with a frame name; "
+    "+ per start frame: in-place edits (<= 1 edit, 12 targets, length <= 3, 3 pairings), re-attachment to the state in each "
+    "of the 7 non-rotating frames (length <= 3 for one pairing, <= 2 for the others), one covariance built on the state "
+    "in another frame / given in QSW or TNW axes (length <= 2)",
     "thorough": "EOP zero: 7 start frames x 3 orbits x 3 matrices at epoch d0 and real IERS tables: 7 start frames, "
     "breadth-first to depth 5 (the property's bound; the search reaches its fixpoint at depth 3 resp. 4, so histories "
     "of every length are covered); collision chains in both orders with histories of length <= 3 per root: 4 epochs for "
     "7 start frames x 3 pairings, 3 orbits / 3 matrices per start frame, 7 start frames per pairing; epoch chains also "
-    "with real IERS tables (length <= 2)",
+    "with real IERS tables (length <= 2); per start frame: in-place edits (<= 2 edits, length <= 5 for one pairing; <= 1 edit, "
+    "length <= 4 for the others), re-attachment searches to their fixpoint for 3 pairings, covariances built on the state "
+    "in another frame and given in S / QSW / TNW axes to depth 5",
 }
 ASSUMPTIONS = [
     "the 6x6 map of a state between two Earth-centred built-in frames at one date is linear and is what "
@@ -54,12 +60,18 @@ ASSUMPTIONS = [
     "a state in which the invariant fails is reported and not expanded (its futures are meaningless)",
     "four epochs (2012-06-15T08:30:17.25 UTC, +6 h, +3 d, 2004-02-29T21:15:40); the oracle always uses the frame map at "
     "the root's own epoch; covariance attached as Cov(orb, C, orb.frame)",
+    "in-place edits of the matrix (x4, + PSD position block, + one symmetric position-velocity pair of cells) are made in "
+    "the covariance's current frame; the model matrix (kept in the start frame) follows them through R^-1; positive "
+    "semi-definiteness is then required to be no worse than the model's",
+    "re-attachment: `other.cov = cov` with other = the same state copied into another non-rotating frame; the covariance "
+    "may also be BUILT on the state expressed in another frame and given in QSW/TNW axes; none of this changes what the "
+    "covariance is, so the oracle R C R^T is unchanged",
     "the outcome of a unit is a deterministic function of the units executed before it in the same process and of the "
     "unit itself (collision chains exist precisely to expose state the library keeps between conversions)",
 ]
 NOT_COVERED = (
-    "re-attachment of a covariance through the `orb.cov = ...` setter, covariances initially given in QSW/TNW or in a "
-    "frame other than the state's, non-Earth centres, dates other than the four epochs, histories longer than the depth bound unless the "
+    "covariances initially given in a regular frame other than the state's, re-attachment to a state in a rotating frame, "
+    "non-Earth centres, dates other than the four epochs, histories longer than the depth bound unless the "
     "search reached its fixpoint (reported in notes)"
 )
 
@@ -240,14 +252,59 @@ def frame_map(src, dst, epoch="d0"):
     return m
 
 
-def oracle(root, target):
-    """Expected covariance in `target` (frame name or QSW/TNW) for the root (S, orbit, matrix)."""
-    c0 = matrix(root["matrix"])
+def rmap(root, target):
+    """6x6 map from the root's start frame S to `target` (frame name or QSW/TNW)."""
     if target in LOCAL:
-        r = triad(target, root_rv(root["orbit"]))
-    else:
-        r = frame_map(root["S"], target, root.get("epoch", "d0"))
-    return r @ c0 @ r.T
+        return triad(target, root_rv(root["orbit"]))
+    return frame_map(root["S"], target, root.get("epoch", "d0"))
+
+
+def oracle(root, target, model=None):
+    """Expected covariance in `target` for the root (S, orbit, matrix): R C R^T, C = the model matrix expressed in S
+    (the root matrix, followed through the in-place edits of the history)."""
+    c = matrix(root["matrix"]) if model is None else model
+    r = rmap(root, target)
+    return r @ c @ r.T
+
+
+def root_model(root):
+    """The root matrix is given in the frame root['cov0'] (default: S itself); the model keeps it expressed in S."""
+    c0 = matrix(root["matrix"])
+    f0 = root.get("cov0", "S")
+    if f0 == "S":
+        return c0.copy()
+    ri = np.linalg.inv(rmap(root, f0))
+    return ri @ c0 @ ri.T
+
+
+Q_EDIT = np.array([[900.0, 120.0, -60.0], [120.0, 400.0, 30.0], [-60.0, 30.0, 625.0]])  # PSD position block [m^2]
+EDITS = ["scale", "addQ", "pair"]
+
+
+def edit_delta(root, w, what):
+    """In-place edit of the covariance in its CURRENT frame; returns (function applied to the real object, new model)."""
+    cf = fname(w.cov.frame)
+    r = rmap(root, cf)
+    ri = np.linalg.inv(r)
+    if what == "scale":
+        def do(cov):
+            cov *= 4.0
+        return do, w.model * 4.0
+    d = np.zeros((6, 6))
+    if what == "addQ":
+        d[:3, :3] = Q_EDIT
+
+        def do(cov):
+            cov[:3, :3] += Q_EDIT
+    else:  # one symmetric pair of cells (position-velocity correlation)
+        ct = r @ w.model @ r.T
+        v = 0.25 * math.sqrt(ct[0, 0] * ct[4, 4])
+        d[0, 4] = d[4, 0] = v
+
+        def do(cov):
+            cov[0, 4] += v
+            cov[4, 0] += v
+    return do, w.model + ri @ d @ ri.T
 
 
 # ---------------------------------------------------------------------------
@@ -255,11 +312,17 @@ def oracle(root, target):
 
 
 class World:
-    __slots__ = ("orb", "cov")
+    __slots__ = ("orb", "cov", "model", "edits", "reattached")
 
-    def __init__(self, orb, cov):
+    def __init__(self, orb, cov, model=None, edits=0, reattached=False):
         self.orb = orb  # None when the observed covariance is a detached copy
         self.cov = cov
+        self.model = model  # the covariance as a plain matrix expressed in the root's start frame
+        self.edits = edits
+        self.reattached = reattached
+
+    def succ(self, orb, cov, **kw):
+        return World(orb, cov, kw.get("model", self.model), kw.get("edits", self.edits), kw.get("reattached", self.reattached))
 
 
 def build_root(root):
@@ -271,8 +334,12 @@ def build_root(root):
     if ORBITS[root["orbit"]]["form"] != "cartesian":
         orb.form = ORBITS[root["orbit"]]["form"]
     fr = orb.frame if root.get("ctor", "frame") == "frame" else root["S"]
-    orb.cov = Cov(orb, matrix(root["matrix"]), fr)
-    return World(orb, orb.cov)
+    if root.get("cov0", "S") != "S":
+        fr = root["cov0"]
+    # the state the covariance is BUILT on may be the same physical state expressed in another non-rotating frame
+    sv = orb if not root.get("built_on") else orb.copy(frame=root["built_on"])
+    orb.cov = Cov(sv, matrix(root["matrix"]), fr)
+    return World(orb, orb.cov, root_model(root))
 
 
 def fname(f):
@@ -287,19 +354,30 @@ def apply(w, op):
         w.cov.frame = tgt
         return w
     if kind == "ccopy":
-        return World(None, w.cov.copy(frame=tgt))
+        return w.succ(None, w.cov.copy(frame=tgt))
     if kind == "drag":
         w.orb.frame = tgt
         return w
     if kind == "ocopy":
         o2 = w.orb.copy(frame=tgt)
-        return World(o2, o2.cov)
+        return w.succ(o2, o2.cov)
+    if kind == "edit":
+        do, model = edit_delta(_W["root"], w, tgt)
+        do(w.cov)
+        w.model = model
+        w.edits += 1
+        return w
+    if kind == "reattach":
+        # the same covariance object attached to the same physical state expressed in another non-rotating frame
+        other = w.orb.copy(frame=tgt)
+        other.cov = w.cov
+        return w.succ(other, w.cov, reattached=True)
     raise ValueError(kind)
 
 
 def applicable(w, op):
-    # orb.frame / orb.copy act on the covariance attached to the state; a detached copy has no state
-    return w.orb is not None or op[0] in ("set", "ccopy")
+    # orb.frame / orb.copy / re-attachment act on the covariance attached to the state; a detached copy has no state
+    return w.orb is not None or op[0] in ("set", "ccopy", "edit")
 
 
 def hidden(cov):
@@ -378,7 +456,10 @@ def step(root, w, op, case, t):
     elif hid != "consistent" and involves_local:
         base = f"Cov.frame/{hid}/" + ("to-local" if tgt in LOCAL else "from-local")
     else:
-        base = f"Cov/{kind}/{cls(pre_frame)}->{cls(tgt)}"
+        tag = ("after-inplace-edit/" if w.edits else "") + ("after-reattach/" if w.reattached else "")
+        tag += ("built-on-other-frame/" if root.get("built_on") else "")
+        base = f"Cov/{kind}/{tag}{cls(pre_frame)}->{cls(tgt if kind not in ('edit', 'reattach') else pre_frame)}"
+    _W["root"] = root
     where = f"{kind}({tgt}) in state cov.frame={pre_frame} private={pre_priv} _orb_frame={pre_of} orb.frame={pre_orb}"
 
     try:
@@ -396,11 +477,13 @@ def step(root, w, op, case, t):
     # labels
     if kind in ("set", "ccopy"):
         exp_label = tgt
+    elif kind in ("edit", "reattach"):
+        exp_label = pre_frame
     elif kind == "drag":
         exp_label = tgt if pre_frame == pre_orb else pre_frame
     else:  # ocopy: the copy's state goes to tgt, its covariance follows iff it was in the state's frame
         exp_label = tgt if pre_frame == pre_orb else pre_frame
-    if kind in ("drag", "ocopy") and fname(w2.orb.frame) != tgt:
+    if kind in ("drag", "ocopy", "reattach") and fname(w2.orb.frame) != tgt:
         t.fail(base + "/state-frame", "the state ends in the requested frame", case, tgt, fname(w2.orb.frame), where)
         ok = False
     if cf != exp_label:
@@ -423,7 +506,7 @@ def step(root, w, op, case, t):
             ok = False
 
     # invariants on the matrix
-    e = oracle(root, cf)
+    e = oracle(root, cf, w2.model)
     s = scales(e)
     ss = np.outer(s, s)
     cs, es = c / ss, e / ss
@@ -442,12 +525,13 @@ def step(root, w, op, case, t):
         t.fail(base + "/asymmetric", "the matrix stays symmetric", case, 0.0, asym, where)
         ok = False
     ev = np.linalg.eigvalsh((cs + cs.T) / 2)
-    neg = float(max(0.0, -ev[0]) / ev[-1])
+    ev_model = np.linalg.eigvalsh((es + es.T) / 2)  # an in-place edit may itself leave the PSD cone: no worse than the model
+    neg = float(max(0.0, min(0.0, ev_model[0]) - ev[0]) / ev[-1])
     if not t.margin("negative eigenvalue / max eigenvalue", neg, TOL_PSD, case):
         t.fail(base + "/not-psd", "the matrix stays positive semi-definite", case, ">= 0", float(ev[0]), where)
         ok = False
-    c0 = matrix(root["matrix"])
-    sp0 = np.linalg.eigvalsh(c0[:3, :3])
+    c0 = w2.model
+    sp0 = np.linalg.eigvalsh((c0[:3, :3] + c0[:3, :3].T) / 2)
     sp = np.linalg.eigvalsh((c[:3, :3] + c[:3, :3].T) / 2)
     dsp = float(np.max(np.abs(sp - sp0)) / sp0[-1])
     if not t.margin("position-block spectrum change (relative)", dsp, TOL_SPEC, case):
@@ -458,6 +542,7 @@ def step(root, w, op, case, t):
 
 
 def rebuild(root, hist, t):
+    _W["root"] = root
     w = build_root(root)
     for op in hist:
         w = apply(w, tuple(op))
@@ -476,8 +561,15 @@ def check_case(case, t):
 # exploration
 
 
-def explore(root, depth, t, config):
-    rid = (config["eop"], root["S"], root["orbit"], root["matrix"], root.get("ctor", "frame"), root.get("epoch", "d0"))
+REATTACH_OPS = [("reattach", x) for x in STARTS]
+REATTACH_LEVEL_OPS = [("set", x) for x in FRAMES + LOCAL] + REATTACH_OPS + [("drag", x) for x in ("ITRF", "EME2000", "MOD")]
+EDIT_LEVEL_OPS = [("set", x) for x in FRAMES + LOCAL] + [("edit", x) for x in EDITS] + [("drag", "ITRF"), ("drag", "EME2000")]
+
+
+def explore(root, depth, t, config, level="main", max_edits=0):
+    ops_all = {"main": OPS, "edit": EDIT_LEVEL_OPS, "reattach": REATTACH_LEVEL_OPS}[level]
+    rid = (config["eop"], root["S"], root["orbit"], root["matrix"], root.get("ctor", "frame"), root.get("epoch", "d0"),
+           root.get("built_on"), root.get("cov0"), level)
     w0 = build_root(root)
     k0 = canon(w0, root)
     seen = {k0}
@@ -490,8 +582,10 @@ def explore(root, depth, t, config):
             w = rebuild(root, hist, t)
             k_src = canon(w, root)
             fresh = True
-            for op in OPS:
-                if not applicable(w, op):
+            n_edits = sum(1 for o in hist if o[0] == "edit")
+            attached = w.orb is not None
+            for op in ops_all:
+                if not (attached or op[0] in ("set", "ccopy", "edit")) or (op[0] == "edit" and n_edits >= max_edits):
                     continue
                 if not fresh:
                     w = rebuild(root, hist, t)
@@ -548,6 +642,32 @@ def _chains(depth, epoch_pairings, single):
     return out
 
 
+def _extra(tier):
+    """In-place edits of the matrix, re-attachment to the same state in another frame, covariance built on the state
+    expressed in another frame / given in local axes."""
+    pair = {"LEO": "dense", "GTO": "diag", "RETRO": "rank3"}
+    orbs = list(pair)
+    out = []
+    for k, s in enumerate(STARTS):
+        main = dict(S=s, orbit=orbs[k % 3], matrix=pair[orbs[k % 3]])
+        others = [dict(S=s, orbit=o, matrix=pair[o]) for o in orbs if o != main["orbit"]]
+        if tier == "quick":
+            out.append(dict(roots=[main] + others, depth=3, level="edit", max_edits=1))
+            out.append(dict(roots=[main], depth=3, level="reattach"))
+            out.append(dict(roots=others, depth=2, level="reattach"))
+        else:
+            out.append(dict(roots=[main], depth=5, level="edit", max_edits=2))
+            out.append(dict(roots=others, depth=4, level="edit", max_edits=1))
+            out.append(dict(roots=[main] + others, depth=5, level="reattach"))
+        built = [dict(main, built_on=STARTS[(k + 1 + j) % len(STARTS)], cov0=c0) for j, c0 in enumerate(("S", "QSW", "TNW"))]
+        if tier == "quick":
+            out.append(dict(roots=[built[k % 3]], depth=2))
+        else:
+            out.append(dict(roots=built, depth=5))
+    out.sort(key=lambda p: -len(p["roots"]) * p["depth"] ** 3)
+    return out
+
+
 def units(tier, seed):
     """Cost per root (CPU, measured): on a tree where the property holds the search reaches its fixpoint at depth 3
     (132 states x 44 operations, 8 s; depth 2: 1.6 s); on the tree with the stale-_orb_frame defect depth 2 = 2 s,
@@ -568,12 +688,13 @@ def units(tier, seed):
                 (big if p["depth"] == 3 else small).append((cfg, p))
         chains = [(cfg, p) for p in _chains(2, 1, True)]
         chains.sort(key=lambda x: -len(x[1]["roots"]))
-        return rot(big) + chains + rot(small) + [(cfg, p) for p in named]
+        return rot(big) + [(cfg, p) for p in _extra("quick")] + chains + rot(small) + [(cfg, p) for p in named]
     u = []
     cfg = {"eop": "pass"}
     cfg2 = {"eop": "real"}
     orbs = list(pair)
     u += [(cfg, p) for p in _chains(3, 3, True)]
+    u += [(cfg, p) for p in _extra("thorough")]
     u += rot([(cfg, dict(root=dict(S=s, orbit=o, matrix=m), depth=5)) for s in STARTS for o in ORBITS for m in MATRICES])
     u += rot([(cfg2, dict(root=dict(S=s, orbit=orbs[k % 3], matrix=pair[orbs[k % 3]]), depth=5)) for k, s in enumerate(STARTS)])
     u += [(cfg2, p) for p in _chains(2, 1, False)]
@@ -582,12 +703,14 @@ def units(tier, seed):
 
 
 def run_unit(p, t):
+    level, me = p.get("level", "main"), p.get("max_edits", 0)
     if "roots" in p:
         for root in p["roots"]:
-            explore(root, p["depth"], t, _W["config"])
-        t.note("collision chains (roots differing in one coordinate, explored in one process)", 1)
+            explore(root, p["depth"], t, _W["config"], level, me)
+        if p.get("chain"):
+            t.note("collision chains (roots differing in one coordinate, explored in one process)", 1)
         return
-    explore(p["root"], p["depth"], t, _W["config"])
+    explore(p["root"], p["depth"], t, _W["config"], level, me)
 
 
 def replay(case, t):
